@@ -184,6 +184,25 @@ func runC15(c0 *h.Ctx) {
 					}
 				}
 			}
+			// unblinding inverts blinding for EVERY blinding scalar, also those no blind is known to hash to: scalars whose
+			// inverse has many leading zero bytes, through the scalar / point hooks (the two multiplications of
+			// BlindPublicKeyWithContext followed by UnblindPublicKeyWithContext)
+			for _, bits := range []int{1, 2, 8, 9, 33, 64, 128, 129, 191, 192, 193, 200, 232, 240, 248} {
+				v := new(big.Int).Lsh(big.NewInt(1), uint(bits-1))
+				v.Add(v, new(big.Int).Mod(new(big.Int).SetBytes(rnd(c, 30)), v))
+				r := new(big.Int).ModInverse(v, ref.EdL())
+				if r == nil || r.Sign() == 0 {
+					continue
+				}
+				rb := leBytes(r, 32)
+				q, e1 := ed25519.VerifPointScalarMult(rb, pub)
+				inv := ed25519.VerifScalarModInverse(rb)
+				p2, e2 := ed25519.VerifPointScalarMult(inv, q)
+				c.Count("blind:scalar-level:short-inverse", 1, h.Hex(rb))
+				if e1 != nil || e2 != nil || !bytes.Equal(p2, pub) || !bytes.Equal(inv, leBytes(v, 32)) {
+					c.Violation("unblinding inverts blinding for every blinding scalar ([r^-1]([r]A) = A, r^-1 computed by the library)", map[string]any{"scalar": h.Hex(rb), "inverse_bits": bits, "library_inverse": h.Hex(inv)})
+				}
+			}
 			// public keys that are not curve points / of other lengths, and the context-free wrappers
 			for _, badPk := range [][]byte{nil, {}, pub[:31], cat(pub, []byte{0}), cat([]byte{2}, make([]byte, 31)), bytesFF(32), cat([]byte{0xec}, bytesFF(30), []byte{0x7f})} {
 				var e1, e2 error
